@@ -466,6 +466,8 @@ def finish(v, level, rule, trusted, assumptions, explanation=None):
     rc = 0
     for n, (summary, replay, has_input) in enumerate(real[:5]):
         path = os.path.join(VERIF, 'replays', '%s-%d-%d.json' % (v.prop, v.seed, n))
+        if 'poison_seed' in v.extra and 'poison_seed' not in replay:
+            replay = dict(replay, poison_seed=v.extra['poison_seed'])
         replay = dict(replay, property=v.prop, summary=summary, seed=v.seed, tier=v.tier,
                       replay_cmd='./check %s --replay %s' % (v.prop, path))
         with open(path, 'w') as f:
